@@ -87,6 +87,7 @@ TABLE = [
     ("alg2.keylen-16", "PasswordAlgorithm::compute_file_encryption_key_r4", "conds", r"^Gt\((?:\$\d+|arg\d+),16\)$", 1, "Algorithm 2(i): at most 16 bytes of the hash"),
     ("alg3.md5-50", "PasswordAlgorithm::authenticate_owner_password_r4", "ranges", r"^Range::Range\{0,50\}$", 1, "Algorithm 3(c)/7: 50 further MD5 rounds"),
     ("alg7.rc4-19-down", "PasswordAlgorithm::authenticate_owner_password_r4", "ranges", r"^rev\(new\(1,19\)\)$", 1, "Algorithm 7(b): RC4 with keys XOR 19 down to 1"),
+    ("alg7.rev3", "PasswordAlgorithm::recover_user_password_r4", "conds", r"^Ge\(arg1\.revision,3\)$", 3, "Algorithm 3(c),(d) / 7(b): the 50 MD5 rounds, the key length and the 19 RC4 passes each depend on revision 3 or greater"),
     ("alg5.pad", "PasswordAlgorithm::compute_hashed_user_password_r3_r4", "calls", r"^update\(.+, encryption::algorithms::PAD_BYTES\)$", 1, "Algorithm 5(b): MD5 of the padding string"),
     ("alg5.rc4-19-up", "PasswordAlgorithm::compute_hashed_user_password_r3_r4", "ranges", r"^new\(1,19\)$", 1, "Algorithm 5(e): RC4 with keys XOR 1 to 19"),
     ("alg1.objnum-3le", "<Rc4CryptFilter as CryptFilter>::compute_key", "calls", r"^index\(to_le_bytes\(arg3\.0\), RangeTo::RangeTo\{3\}\)$", 1, "Algorithm 1(b): low-order 3 bytes of the object number, low-order byte first"),
@@ -201,6 +202,24 @@ def revision_dispatch(ctx, F):
                    what="%s selects %s for revisions %s; the algorithm it implements is defined for revisions %s"
                         % (fn, c.cname.rsplit("::", 1)[-1], sorted(got), sorted(want or [])))
     ctx.floor("R-TABLE", "revision dispatch sites", n, 8)
+
+
+def revision_not_version(ctx, F):
+    """The algorithms of the standard security handler are selected by the *revision* (R) of the handler; V only says which
+    crypt-filter machinery applies.  No revision-specific method of PasswordAlgorithm (`*_r2`, `*_r3_r4`, `*_r4`, `*_r6`)
+    branches on `self.version`."""
+    n = 0
+    for pth, b in sorted(F.bodies.items()):
+        fn = F.canon_of(b)
+        if not re.match(r"^PasswordAlgorithm::\w+_r\d(_r\d)*$", fn.split("::{closure")[0]):
+            continue
+        n += 1
+        with b.alpha(args=True):
+            bad = [nz(b.sname(b.term(bi)["d"], 8)) for bi in range(b.n) if b.term(bi)["k"] == "switch"]
+        bad = [t for t in bad if re.search(r"arg1\.version\b", t)]
+        ctx.ob("R-SIB", "revision-not-version|%s" % fn, not bad, "%s does not branch on V" % fn, b.where(),
+               what="%s decides a step of the algorithm by `self.version` (%s): the steps depend on the revision R (V 2 comes with R 3, V 4 with R 4), so a document of another V/R pairing is keyed differently by its own writer and reader" % (fn, bad[:2]))
+    ctx.floor("R-SIB", "revision-specific methods of PasswordAlgorithm", n, 10)
 
 
 def password_truncation(ctx, F):
@@ -369,6 +388,7 @@ def run(ctx):
                 % ((sd[0], sd[2][:120]) if sd else ("none", "none")))
     revision_dispatch(ctx, F)
     password_truncation(ctx, F)
+    revision_not_version(ctx, F)
     nsr = set_before_read(ctx, F, "<EncryptionState as TryFrom>::try_from")
     ctx.floor("R-ORDER", "method calls on the PasswordAlgorithm under construction", nsr, 4)
     # permission bits
